@@ -816,6 +816,7 @@ type c07Plan struct {
 	GapUs     []int         `json:"gap_us_choices"`
 	Bursts    [][2]int      `json:"bursts"` // (lines, pause afterwards in ms); empty = steady traffic
 	Reset     bool          `json:"reset_on_down"`
+	StallMs   int           `json:"endpoint_hangs_before_dying_ms"`
 	ReadUs    int           `json:"endpoint_read_delay_us"`
 }
 
@@ -871,6 +872,7 @@ func scenC07(x *Exec) {
 	}
 	p.Reset = g.Bool(0.4)
 	p.ReadUs = []int{0, 0, 100, 500}[g.Pick(4)]
+	p.StallMs = []int{0, 0, 0, 200, 1000, 3000}[g.Pick(6)]
 	x.Out.Sample = p
 	cfg.Horizon = 12 * time.Hour
 	cfg.MaxSteps = 6000000
@@ -910,7 +912,17 @@ func scenC07(x *Exec) {
 			for _, ms := range p.UpDownMs {
 				simrt.Sleep(time.Duration(ms) * time.Millisecond)
 				if up {
+					if p.StallMs > 0 {
+						// the endpoint hangs for a moment before it dies: what it had not read yet is gone with it.
+						// (Short against the time the relay keeps written lines for replay; an endpoint that hangs for
+						// longer than that is outside what the property can promise.)
+						ep.Paused = true
+						simrt.Sleep(time.Duration(p.StallMs) * time.Millisecond)
+						s.Probe("endpoint.hung_before_dying")
+					}
 					ep.Down()
+					ep.Paused = false
+					ep.Cond.Broadcast()
 				} else {
 					ep.Start()
 					s.Probe("endpoint.up_again")
